@@ -443,6 +443,13 @@ func (env *CEnv) equal(a, b Value) *Term {
 		}
 		return Eq(ta, tb)
 	}
+	// comparison with nil of a non-scalar representation
+	if bok && isNilConst(tb) && !aok {
+		return env.ex.isNil(env.scratchState(), a)
+	}
+	if aok && isNilConst(ta) && !bok {
+		return env.ex.isNil(env.scratchState(), b)
+	}
 	// boxed scalars compare by content against plain scalars
 	if ia, ok := a.(*IfaceV); ok && bok {
 		if it, ok := ia.V.(*Term); ok && it.S == tb.S {
@@ -846,7 +853,7 @@ func (env *CEnv) call(n *Node) cval {
 		}
 	}
 	// declared uninterpreted function of the environment model
-	if d := gsym.decls[smtName(name)]; d != nil {
+	if d := lookupDecl(name); d != nil {
 		if len(d.Args) != len(n.Kids) {
 			cfail("%s expects %d args", name, len(d.Args))
 		}
@@ -877,6 +884,7 @@ var specSigs = map[string]string{
 	"hash_ok": SBool, "sha512": SStr, "hash_of": SStr, "localize": SStr, "totp_ok": SBool,
 	"b64enc!std": SStr, "b64enc!url": SStr, "b64dec!std": SStr, "b64dec!url": SStr,
 	"time_format": SStr, "time_parse": SInt, "time_parse_ok": SBool, "fresh_error": SBool,
+	"regex_match": SBool, "count_upper": SInt, "count_lower": SInt, "count_numeric": SInt, "count_symbols": SInt, "count_whitespace": SInt,
 	"str_lower": SStr, "filepath_base": SStr, "str_split": SArr(SInt, SStr), "str_split_len": SInt, "str_join": SStr, "itoa": SStr, "atoi": SInt,
 }
 
